@@ -150,6 +150,10 @@ func lexRun(b []byte) lexSummary {
 // 2 = structure differs
 func goVerdict(real, harmless []byte) int {
 	a, b := lexRun(real), lexRun(harmless)
+	return summaryVerdict(&a, &b)
+}
+
+func summaryVerdict(a, b *lexSummary) int {
 	if a.Struct != b.Struct || a.Final != b.Final {
 		return 2
 	}
